@@ -319,7 +319,52 @@ func c08(c *Ctx) {
 			continue
 		}
 		for _, g := range []guard{{"i<=j", iGtJ}, {"i!=0", iZero}} {
-			q := &pathQ{fn: f, fromEntry: true, to: callTo(v.walk), barrier: g.e}
+			// the guard may sit in a helper that is given (i, j) and whose error is checked: the edge on which such a
+			// helper reported no error establishes the guard as well
+			var viaHelper []cfgEdge
+			for _, in := range sites(f, func(x ssa.Instruction) bool {
+				cc := callOf(x)
+				if cc == nil || cc.StaticCallee() == nil || !fnInPkgs(cc.StaticCallee(), []string{"embedded/ahtree"}) || callTo(v.walk)(x) {
+					return false
+				}
+				_, isDefer := x.(*ssa.Defer)
+				return !isDefer
+			}) {
+				callee := callOf(in).StaticCallee()
+				if len(callee.Blocks) == 0 {
+					continue
+				}
+				// the helper receives this function's i and j under the same names
+				same := true
+				for ai, a := range callOf(in).Args {
+					if p, ok := a.(*ssa.Parameter); ok && (p.Name() == "i" || p.Name() == "j") {
+						if ai >= len(callee.Params) || callee.Params[ai].Name() != p.Name() {
+							same = false
+						}
+					}
+				}
+				hq := &pathQ{fn: callee, fromEntry: true, to: successReturn, barrier: g.e}
+				if !same || hq.bypass() != nil {
+					continue
+				}
+				in := in
+				for _, e := range errEdges(f, func(x ssa.Instruction) bool { return x == in }) {
+					viaHelper = append(viaHelper, cfgEdge{e.b, 1 - e.succ})
+				}
+			}
+			barrier := g.e
+			if len(viaHelper) > 0 {
+				vh := viaHelper
+				barrier = anyEdge(g.e, func(b *ssa.BasicBlock, succ int) bool {
+					for _, e := range vh {
+						if e.b == b && e.succ == succ {
+							return true
+						}
+					}
+					return false
+				})
+			}
+			q := &pathQ{fn: f, fromEntry: true, to: callTo(v.walk), barrier: barrier}
 			c.check(len(sites(f, callTo(v.walk))) > 0 && q.bypass() == nil, "C08.2/constructor-guards", fnName(f)+":guard:"+g.name, c.pos(f.Pos()), "the walk is dominated by "+g.name,
 				"a proof is built without the guard "+g.name+" that the verifiers apply: a proof is handed out for a position that does not exist (and with j == 0 the walk divides by zero)")
 		}
